@@ -352,8 +352,21 @@ def full_font(rng):
     for cls, _ in sets:
         gl += REPERTOIRE[cls][:3]
     gl += [("period", 0x2E), ("acutecomb", 0x301)]
+    skip = []
     if any(c == "arab" for c, _ in sets):
         gl.append(("fatha-ar", 0x64E))
+        # glyphs whose script EXTENSIONS span several scripts (tatweel, Arabic comma), and non-exported glyphs encoded in
+        # scripts the font does not otherwise support
+        if rng.random() < 0.7:
+            gl.append(("kashida-ar", 0x640))
+        if rng.random() < 0.5:
+            gl.append(("comma-ar", 0x60C))
+        if rng.random() < 0.6:
+            gl.append(("alaph-syr", 0x710))
+            skip.append("alaph-syr")
+    if rng.random() < 0.3:
+        gl.append(("haa-thaana", 0x780))
+        skip.append("haa-thaana")
     names = [n for n, _ in gl]
     glyphs = {}
     for n, cp in gl:
@@ -372,6 +385,10 @@ def full_font(rng):
         items = [n for n, _ in REPERTOIRE[cls][:3]]
         if len(items) >= 2 and rng.random() < 0.85:
             kerning.append([items[0], items[1], -40 * 4])
+    if "kashida-ar" in names and "beh-ar" in names:
+        kerning.append(["beh-ar", "kashida-ar", 24 * 4])
+    if "comma-ar" in names and "alef-ar" in names:
+        kerning.append(["alef-ar", "comma-ar", -16 * 4])
     if rng.random() < 0.5:
         kerning.append(["period", "period", 10 * 4])
     r = rng.random()
@@ -387,5 +404,5 @@ def full_font(rng):
     fea = "\n".join(f"languagesystem {t} dflt;" for t in decl)
     ufo = {"glyphs": glyphs, "order": names, "glyphNames": names,
            "info": {"unitsPerEm": 1000, "ascender": 800, "descender": -200, "familyName": "LayoutTest", "styleName": "Regular"},
-           "kerning": kerning, "kernScale": 4, "fea": fea, "lib": {}}
+           "kerning": kerning, "kernScale": 4, "fea": fea, "lib": {"public.skipExportGlyphs": skip} if skip else {}}
     return {"ufo": ufo, "declared": decl}
